@@ -295,7 +295,7 @@ func cmdReads(args []string) int {
 	out := NewOut(f.Out)
 	defer out.Close()
 	prof := HistProfile{MaxOps: 12, Backdate: true}
-	feats := []Feat{allOn, allOn, {true, true, false, false, true}, {true, false, true, true, false}, {false, false, true, false, true}, {true, true, true, false, false}, {true, true, false, true, false}, {false, true, false, false, false}}
+	feats := []Feat{allOn, allOn, {true, true, false, false, true}, {true, false, true, true, false}, {false, false, true, false, true}, {true, true, true, false, false}, {true, true, false, true, false}}
 	nprobes := 24
 	mon := f.Extra["monitors"]
 	finish := func(hr *HistRun, probes []Probe) {
@@ -565,11 +565,7 @@ func monC17probe(hr *HistRun, p Probe, a ProbeAns) string {
 				want = cur[x.Addr]
 			}
 			if kvsx(want) != kvsx(x.Meta) {
-				tag := ""
-				if hr.Feat.AccHist && accountHasDelete(hr, x.Addr) {
-					tag = " [account-metadata-delete-undated]"
-				}
-				return fmt.Sprintf("account %s metadata at %d is %s, expected %s (history=%v)%s", x.Addr, t, kvsx(x.Meta), kvsx(want), hr.Feat.AccHist, tag)
+				return fmt.Sprintf("account %s metadata at %d is %s, expected %s (history=%v)", x.Addr, t, kvsx(x.Meta), kvsx(want), hr.Feat.AccHist)
 			}
 		}
 	case "txs":
@@ -610,11 +606,7 @@ func monC17probe(hr *HistRun, p Probe, a ProbeAns) string {
 				want = cur[x.ID]
 			}
 			if kvsx(want) != kvsx(x.Meta) {
-				tag := ""
-				if hr.Feat.TxHist != hr.Feat.AccHist {
-					tag = " [tx-history-tests-account-feature]"
-				}
-				return fmt.Sprintf("transaction %d metadata at %d is %s, expected %s (TRANSACTION_METADATA_HISTORY=%v ACCOUNT_METADATA_HISTORY=%v)%s", x.ID, t, kvsx(x.Meta), kvsx(want), hr.Feat.TxHist, hr.Feat.AccHist, tag)
+				return fmt.Sprintf("transaction %d metadata at %d is %s, expected %s (TRANSACTION_METADATA_HISTORY=%v ACCOUNT_METADATA_HISTORY=%v)", x.ID, t, kvsx(x.Meta), kvsx(want), hr.Feat.TxHist, hr.Feat.AccHist)
 			}
 		}
 	}
